@@ -677,7 +677,7 @@ pub fn run() {
     }
     let c = Corruptions::new(&tier);
     corr_total += c.total;
-    let (outcomes, done, machinery) = isolate::drive(exe, &["c19worker".to_string(), tier.clone()], 16, c.total, Duration::from_secs(if thorough { 30 } else { 10 }), &format!("c19_{}", pname));
+    let (outcomes, done, machinery) = isolate::drive(exe, &["c19worker".to_string(), tier.clone()], 16, c.total, Duration::from_secs(if thorough { 30 } else { 20 }), &format!("c19_{}", pname));
     for m in machinery {
       run.machinery_error(&m);
     }
